@@ -98,6 +98,15 @@ func buildOverlay(rel string, native bool) (map[string][]byte, []string) {
 	p := filepath.Join(repoDir, rel, "zz_vf_intrinsics.go")
 	ov[p] = []byte(strings.ReplaceAll(string(tmpl), "PKGNAME", pkgName))
 	files = append(files, p)
+	if _, err := os.Stat(filepath.Join(dir, ".netutil")); err == nil {
+		nt, err := os.ReadFile(filepath.Join(verifDir, "harness", "_tmpl", "netutil.go.tmpl"))
+		if err != nil {
+			fatalf("%v", err)
+		}
+		p := filepath.Join(repoDir, rel, "zz_vf_netutil.go")
+		ov[p] = []byte(strings.ReplaceAll(string(nt), "PKGNAME", pkgName))
+		files = append(files, p)
+	}
 	return ov, files
 }
 
@@ -164,6 +173,9 @@ type ExecResult struct {
 	Unwind       int                          `json:"unwind"`
 	Observed     []string                     `json:"observed,omitempty"`
 	Diff         *DiffResult                  `json:"second_solver,omitempty"`
+	Winners      map[string]int               `json:"solver_winners,omitempty"`
+	ModelHits    int                          `json:"model_cache_hits"`
+	UnsatHits    int                          `json:"unsat_subset_hits"`
 }
 
 type DiffResult struct {
@@ -218,6 +230,7 @@ func cmdExec(args []string) {
 	known := fs.String("known", "", "known_findings.json")
 	second := fs.String("second", "", "second solver for final VCs (cvc5|z3-new)")
 	inputsFile := fs.String("inputs", "", "JSON file with a concrete input vector (differential mode)")
+	solverBin := fs.String("solver", envOr("VSYM_SOLVER", "z3-new"), "primary solver binary (z3-new | z3 | cvc5)")
 	jobsFile := fs.String("jobs", "", "JSON file: list of {fn,case,unwind,paths,steps,timeout,out}")
 	fs.Parse(args)
 	type jobT struct {
@@ -274,7 +287,7 @@ func cmdExec(args []string) {
 			fatalf("no function %s in %s", name, pkg.Pkg.Path())
 		}
 		t1 := time.Now()
-		solver, err := NewSolver("z3", to, *smtlog)
+		solver, err := NewSolver(*solverBin, to, *smtlog)
 		if err != nil {
 			fatalf("solver: %v", err)
 		}
@@ -289,7 +302,7 @@ func cmdExec(args []string) {
 		res := &ExecResult{Harness: name, Case: ex.caseVals, Paths: ex.Paths, PathsEnded: ex.PathsEnded, Branches: ex.Branches,
 			Obligations: ex.Obligations, Discharged: ex.Discharged, Trivial: ex.Trivial, Queries: solver.Queries, CacheHits: solver.CacheHits,
 			SolverSec: solver.Seconds, LoadSec: loadSec, Inconclusive: ex.Inconclusive, Reached: ex.Reached, ReachSamples: ex.ReachSample,
-			Stubs: ex.StubsUsed, SolverErrors: solver.Errors, Unwind: uw, Observed: ex.Observed}
+			Stubs: ex.StubsUsed, Winners: solver.Winners, ModelHits: solver.ModelHits, UnsatHits: solver.CoreHits, SolverErrors: solver.Errors, Unwind: uw, Observed: ex.Observed}
 		for f := range ex.FuncsEntered {
 			res.Funcs = append(res.Funcs, f)
 		}
@@ -368,4 +381,11 @@ func loadConcrete(path string) map[string]string {
 // secondSolver re-decides the recorded findings' queries and a sample of discharged ones with another solver.
 func (ex *Exec) secondSolver(name string) *DiffResult {
 	return &DiffResult{Solver: name}
+}
+
+func envOr(k, d string) string {
+	if v := os.Getenv(k); v != "" {
+		return v
+	}
+	return d
 }
